@@ -243,10 +243,19 @@ func TestFlateWriterReset(t *testing.T) {
 		destFailed := rec1.Failed
 		ctl.tail, ctl.extra = nil, nil
 
+		// Reset onto a new destination, or onto the very same one (which, if it
+		// had failed, has recovered): the per-message Reset(conn) loop.
 		rec2 := tx.NewRec()
+		sameDest := rapid.IntRange(0, 2).Draw(t, "same-dest") == 0
+		if sameDest {
+			rec2 = rec1
+			rec1.FailAt, rec1.Failed = -1, false
+			hx.Class(fmt.Sprintf("flatewriter/reset-onto-same-destination/after-dest-error=%v", destFailed))
+		}
+		mark, markCalls := rec2.Len(), len(rec2.Calls)
 		w.Reset(rec2)
-		if rec2.Len() != 0 || len(rec2.Calls) != 0 {
-			t.Fatalf("Reset(newDest) itself wrote %x to the new destination (a new Writer writes nothing before its first Write)\ncompressor %s, history before: %s", rec2.Bytes(), kind, hx.JSON(h1))
+		if rec2.Len() != mark || len(rec2.Calls) != markCalls {
+			t.Fatalf("Reset(dest) itself wrote %x to the destination (a new Writer writes nothing before its first Write)\ncompressor %s, history before: %s", rec2.Bytes()[mark:], kind, hx.JSON(h1))
 		}
 
 		ctlT := &compCtl{kind: kind}
@@ -255,7 +264,8 @@ func TestFlateWriterReset(t *testing.T) {
 
 		if rapid.IntRange(0, 99).Draw(t, "h2.fail?") >= 85 {
 			k := rapid.IntRange(0, 3).Draw(t, "h2.failat")
-			rec2.FailAt, recT.FailAt = k, k
+			rec2.FailAt, recT.FailAt = markCalls+k, k
+			rec2.Short, recT.Short = 0, 0
 		}
 		if w.Err() != nil || twin.Err() != nil {
 			if (w.Err() != nil) != (twin.Err() != nil) {
@@ -271,8 +281,8 @@ func TestFlateWriterReset(t *testing.T) {
 				t.Fatalf("call %d (%s) after Reset returned %+v, fresh writer %+v\ncase: %s", i, h2[i].Kind, ra[i], rb[i], hx.JSON(desc))
 			}
 		}
-		if !bytes.Equal(rec2.Bytes(), recT.Bytes()) {
-			t.Fatalf("destination after Reset got %x, fresh writer's got %x\ncase: %s", head(rec2.Bytes()), head(recT.Bytes()), hx.JSON(desc))
+		if !bytes.Equal(rec2.Bytes()[mark:], recT.Bytes()) {
+			t.Fatalf("destination after Reset got %x, fresh writer's got %x\ncase: %s", head(rec2.Bytes()[mark:]), head(recT.Bytes()), hx.JSON(desc))
 		}
 
 		hx.Class("flatewriter/" + kind)
@@ -288,7 +298,7 @@ func TestFlateWriterReset(t *testing.T) {
 			state = "used"
 		}
 		hx.Class("flatewriter/state/" + state)
-		if state != "clean" && len(rec2.Bytes()) > 0 {
+		if state != "clean" && len(rec2.Bytes()) > mark {
 			var sh []string
 			for _, o := range append(append([]fwOp{}, h1...), h2...) {
 				sh = append(sh, fmt.Sprintf("%s%d%q", o.Kind[:1], lenClass(o.Len), o.Tail))
@@ -390,6 +400,46 @@ func drawFrSource(t *rapid.T, label string, validPct int, dict []byte) frSource 
 		s.Chunks = rapid.SampledFrom([][]int{nil, {1}, {2}, {7}, {3, 1, 64}}).Draw(t, label+".chunks")
 	}
 	return s
+}
+
+// reSrc is a source object whose content can be replaced: the same io.Reader
+// value serves the next message (a connection). withByte adds io.ByteReader.
+type reSrc struct {
+	data  []byte
+	pos   int
+	chunk int
+}
+
+func (s *reSrc) load(data []byte, chunk int) { s.data, s.pos, s.chunk = data, 0, chunk }
+
+func (s *reSrc) Read(p []byte) (int, error) {
+	if s.pos == len(s.data) {
+		return 0, io.EOF
+	}
+	n := len(p)
+	if s.chunk > 0 && s.chunk < n {
+		n = s.chunk
+	}
+	n = copy(p[:n], s.data[s.pos:])
+	s.pos += n
+	return n, nil
+}
+
+type reSrcByte struct{ *reSrc }
+
+func (s reSrcByte) ReadByte() (byte, error) {
+	if s.pos == len(s.data) {
+		return 0, io.EOF
+	}
+	s.pos++
+	return s.data[s.pos-1], nil
+}
+
+func (s frSource) chunk() int {
+	if len(s.Chunks) > 0 {
+		return s.Chunks[0]
+	}
+	return 0
 }
 
 func (s frSource) open() io.Reader {
@@ -501,11 +551,43 @@ func TestFlateReaderReset(t *testing.T) {
 		}
 		ctorA, resetsA := mk()
 		ctorB, _ := mk()
-		a := wsflate.NewReader(src1.open(), ctorA)
+		// Reset onto a new source value, or onto the very same one now holding
+		// the next message.
+		sameSrc := rapid.IntRange(0, 2).Draw(t, "same-source") == 0
+		var obj io.Reader
+		var core *reSrc
+		if sameSrc {
+			core = &reSrc{}
+			core.load(src1.wire, src1.chunk())
+			obj = core
+			if src1.ByteReader {
+				obj = reSrcByte{core}
+			}
+			src2.ByteReader, src2.Chunks = src1.ByteReader, src1.Chunks
+		}
+		openA := func(s frSource) io.Reader {
+			if sameSrc {
+				core.load(s.wire, s.chunk())
+				return obj
+			}
+			return s.open()
+		}
+		openB := func(s frSource) io.Reader {
+			if sameSrc {
+				c := &reSrc{}
+				c.load(s.wire, s.chunk())
+				if s.ByteReader {
+					return reSrcByte{c}
+				}
+				return c
+			}
+			return s.open()
+		}
+		a := wsflate.NewReader(openA(src1), ctorA)
 		r1 := runFr(a, h1)
 		errBefore := a.Err() != nil
-		a.Reset(src2.open())
-		b := wsflate.NewReader(src2.open(), ctorB)
+		a.Reset(openA(src2))
+		b := wsflate.NewReader(openB(src2), ctorB)
 		if (a.Err() != nil) != (b.Err() != nil) {
 			t.Fatalf("Err() right after Reset: %v, fresh reader: %v", a.Err(), b.Err())
 		}
@@ -527,6 +609,9 @@ func TestFlateReaderReset(t *testing.T) {
 		}
 
 		hx.Class("flatereader/" + kind)
+		if sameSrc {
+			hx.Class(fmt.Sprintf("flatereader/reset-onto-same-source/sticky-error-before=%v", errBefore))
+		}
 		state := "unused"
 		partial := false
 		for i, o := range h1 {
